@@ -182,6 +182,10 @@ def answer (line : String) : String :=
   | ["neg", f, gs] =>
       let r := negFunc (fun (_ : List Float) => (pF f, pList pF gs)) []
       s!"{fF r.1} {fListD fF r.2}"
+  | ["negnr", f, gs, idx, g2] =>
+      match negNrFunc (fun (_ : List Float) => (pF f, pList pF gs)) (fun _ => pF g2) (pN idx) [] with
+      | some e => s!"{fF e.f} {fF e.fp} {fF e.fpp}"
+      | none => "ERR"
   | ["bmode", m] => match scipyBoundsMode (unhex m) with
       | .native => "native"
       | .constraints => "constraints"
